@@ -212,6 +212,12 @@ def run(chk, db, tier):
     chk.guard("R3", rule_r3, db, methods)
     chk.rule("R4", "ETag = MD5 of current content: get_md5_sum hashes the file at the object path on every path; reported ETags come from it or from the bytes just written")
     chk.guard("R4", rule_r4, db, methods)
+    # prerequisite: the interval Range::check hands to the ranged read is the RFC 9110 one (decided for C14, needed here as well)
+    from . import c14
+    from ..report import Sub
+    sub = Sub(chk, "C14")
+    sub.rule("R4", "Range::check intervals: end (and start) provably <= full_length by difference-bound reasoning over min / +1 / guards")
+    sub.guard("R4", c14.rule_r4, db)
 
 
 META = {
